@@ -1,6 +1,7 @@
 """Check driver: obligations, known findings, evidence, exit codes (DESIGN.md §1)."""
 import json
 import os
+import re
 import sys
 import time
 
@@ -38,6 +39,7 @@ class Ctx:
         self.functions = set()
         self.explored = {'cfg_edges': 0, 'paths': 0, 'valuations': 0}
         self.extra = {}
+        self._adv = None
 
     def sub(self, db=None):
         return Ctx(self.pid, self.tier, db or self.db, scratch=True)
@@ -48,7 +50,22 @@ class Ctx:
     def ok(self, rule, key, loc, what=''):
         self.obs.append(Ob(rule, key, loc, 'ok', what))
 
+    def _advisory(self, rule, key):
+        """rules listed in the property module's ADVISORY table compare the spelling of siblings / of a reference fragment; a
+        difference there is recorded in the evidence as an observation, never reported as a violation (a behaviour-preserving
+        edit can cause it)"""
+        if self._adv is None:
+            try:
+                import importlib
+                self._adv = [(r, re.compile(k)) for r, k in getattr(importlib.import_module('sa.props.' + self.pid), 'ADVISORY', [])]
+            except ImportError:
+                self._adv = []
+        return any(r == rule and k.search(key) for r, k in self._adv)
+
     def violation(self, rule, key, loc, what, path=None):
+        if self._advisory(rule, key):
+            self.obs.append(Ob(rule, key, loc, 'advisory', what, path))
+            return
         self.obs.append(Ob(rule, key, loc, 'violation', what, path))
 
     def check(self, cond, rule, key, loc, what_ok='', what_bad=None, path=None):
@@ -114,6 +131,9 @@ def finish(ctx, t0, level='other', assumptions=(), explanation='', trusted=()):
         print('  control  %-40s %s' % (name, 'fired' if fired else 'DID NOT FIRE'))
     for n in ctx.notes:
         print('  note: ' + n)
+    advs = [o for o in ctx.obs if o.status == 'advisory']
+    for o in advs:
+        print('  advisory (not a verdict): %s [%s] %s — %s' % (o.loc, o.rule, o.key, o.what[:160]))
 
     wall = time.time() - t0
     os.makedirs(os.path.join(VERIF, 'evidence'), exist_ok=True)
@@ -148,6 +168,7 @@ def finish(ctx, t0, level='other', assumptions=(), explanation='', trusted=()):
         'checker_cmd': './check %s --tier %s' % (pid, ctx.tier),
         'trusted_base': list(trusted) or ['clang 14 front end + clang::CFG', 'tools/gx/gx.cc', 'sa/*.py rule library', 'sa/specs tables'],
         'analysis_broken': broken,
+        'advisory_observations': [o.as_dict() for o in ctx.obs if o.status == 'advisory'][:20],
     }
     cov.update(ctx.extra)
     ev = {'property_id': pid, 'tier': ctx.tier, 'seed': int(os.environ.get('VERIF_SEED', '0') or 0),
